@@ -1,10 +1,12 @@
 (** Which of its two configuration files the ROOT project is loaded from, and what that does to its build list.
-      dawn  project_config.go loadConfig: for name in dawn.toml, .dawnconfig: err = loadConfigFile(root/name);
-            nil: done; !errors.Is(err, fs.ErrNotExist): return err; after the loop: return err.
+      dawn  project_config.go loadConfig (as of 15786e0): for name in dawn.toml, .dawnconfig: os.Stat(root/name) says
+            "does not exist": next name; otherwise err = loadConfigFile(root/name) is the answer (nil or not).
             loadConfigFile: os.ReadFile + LoadConfigBytes (their error as it is), then mvs.BuildList, whose error is
-            wrapped with %w ("computing requirements: ...") -- so errors.Is(err, fs.ErrNotExist) also holds when the
-            error BuildList reports is a missing file below the download cache (a cache entry that has lost its
-            configuration file: "loading config file: open .../.dawnconfig: no such file or directory").
+            wrapped with %w ("computing requirements: ...").
+      Before 15786e0 loadConfig went on to the next name when errors.Is(err, fs.ErrNotExist) held for the error of
+      loadConfigFile -- which also holds when the error BuildList reports is a missing file below the download cache
+      (a cache entry that has lost its configuration file: "loading config file: open .../.dawnconfig: no such file or
+      directory"); [load_config_loop_former] keeps that version for the record (load_root_former_refuted).
     NO proofs in this file. *)
 From Dawn Require Export Mvs.Load.
 
@@ -44,8 +46,15 @@ Section LoadRoot.
                    end
     end.
 
-  (** loadConfig ([toml] = root/dawn.toml, [dot] = root/.dawnconfig) *)
+  (** loadConfig ([toml] = root/dawn.toml, [dot] = root/.dawnconfig): only a file that is not there sends it on *)
   Definition load_config_loop (toml dot : root_file) : file_result :=
+    match toml with
+    | RMissing => load_config_file dot
+    | _ => load_config_file toml
+    end.
+
+  (** loadConfig before 15786e0: the error of loadConfigFile decided *)
+  Definition load_config_loop_former (toml dot : root_file) : file_result :=
     match load_config_file toml with
     | FErr true => load_config_file dot
     | r => r
